@@ -34,7 +34,13 @@
                                  DialFailure for the peer
         12 p tag                 what the transport manager will answer to dial(p): 0 no address,
                                  1 accepted, 2 already connected, 3 dial in progress
+        13 p kind n cidspec x    a bulk command of n entries (n <= 80000) in runs of 1, 2, 3, ...
+                                 equal entries, run j being built on the cidspec with the first two
+                                 digest bytes replaced by j: kind 0 send_request (x = wantType),
+                                 1 send_response of presences (x = type), 2 send_response of
+                                 blocks of x bytes (block id = j)
       trace:  4 nops { <events> <complete messages written> partial_bytes }*nops
+              the entries of a written message are run-length encoded: count entry
    5  presence batching through the hooked functions:  5 max_message n { cidspec presence }*n
       trace:  5 k { <ids> message_len <decoded: <cid bytes> type> }*k
    6  request batching through the hooked functions (the loop of send_request):
@@ -169,6 +175,46 @@ Definition p_carrier : parser (option carrier) :=    (* None = the substream fai
   | _ => pfail
   end.
 
+(* ---- bulk commands: many entries from a few numbers ---- *)
+
+Definition BULK_MAX : N := 80000.
+
+(* runs of lengths 1, 2, 3, ... (the last one cut) that add up to n: (run index, length) *)
+Fixpoint bulk_runs (fuel : nat) (j left : N) : list (N * N) :=
+  match fuel with
+  | O => []
+  | S f =>
+      if left =? 0 then []
+      else let len := N.min (j + 1) left in (j, len) :: bulk_runs f (j + 1) (left - len)
+  end.
+
+Definition bulk_cid (c : cid) (j : N) : cid :=
+  mkCid (c_version c) (c_codec c) (c_code c)
+        (match c_digest c with _ :: _ :: t => (j / 256) mod 256 :: j mod 256 :: t | d => d end).
+
+Definition bulk_expand {X} (n : N) (mk : N -> X) : list X :=
+  flat_map (fun jl : N * N => repeat (mk (fst jl)) (N.to_nat (snd jl))) (bulk_runs 2000 0 n).
+
+Definition p_bulk : parser action :=
+  let* kind := pN in let* n := pN in let* c := p_cidspec in let* x := pN in
+  if (n <=? BULK_MAX) && (2 <=? N.of_nat (length (c_digest c))) then
+    match kind with
+    | 0 => match x with
+           | 0 => pret (ARequest (bulk_expand n (fun j => (bulk_cid c j, WBlock))))
+           | 1 => pret (ARequest (bulk_expand n (fun j => (bulk_cid c j, WHave))))
+           | _ => pfail
+           end
+    | 1 => match x with
+           | 0 => pret (AResponse (bulk_expand n (fun j => mkSP j (bulk_cid c j) PHave)) [])
+           | 1 => pret (AResponse (bulk_expand n (fun j => mkSP j (bulk_cid c j) PDontHave)) [])
+           | _ => pfail
+           end
+    | 2 => if (4 <=? x) && (x <=? 8388608)
+           then pret (AResponse [] (bulk_expand n (fun j => mkSB j (bulk_cid c j) x))) else pfail
+    | _ => pfail
+    end
+  else pfail.
+
 Definition p_nop : parser (nop * list oentry) :=
   let* tag := pN in
   match tag with
@@ -187,6 +233,7 @@ Definition p_nop : parser (nop * list oentry) :=
   | 10 => let* p := p_peer in pret (NKill p, [])
   | 11 => let* p := p_peer in pret (NDialFail p, [])
   | 12 => let* p := p_peer in let* tag := pN in if tag <=? 3 then pret (NForce p tag, []) else pfail
+  | 13 => let* p := p_peer in let* a := p_bulk in pret (NSend p a, [])
   | _ => pfail
   end.
 
@@ -267,18 +314,38 @@ Definition enc_event (p : N) (e : event payload) : list N :=
   | EResponse rs => 2 :: p :: enc_list enc_response rs
   end.
 
-(* a written message as the harness decodes it again: kind, encoded length, entries *)
+(* run-length encoding of equal neighbours (tail recursive: bulk commands give long lists) *)
+Fixpoint rle_go {X} (eqb : X -> X -> bool) (cur : X) (k : N) (l : list X) (acc : list (N * X)) : list (N * X) :=
+  match l with
+  | [] => rev_append acc [(k, cur)]
+  | e :: t => if eqb e cur then rle_go eqb cur (k + 1) t acc else rle_go eqb e 1 t ((k, cur) :: acc)
+  end.
+
+Definition rle {X} (eqb : X -> X -> bool) (l : list X) : list (N * X) :=
+  match l with [] => [] | e :: t => rle_go eqb e 1 t [] end.
+
+Definition enc_runs {X} (eqb : X -> X -> bool) (f : X -> list N) (l : list X) : list N :=
+  enc_list (fun r : N * X => fst r :: f (snd r)) (rle eqb l).
+
+Definition want_eqb (a b : cid * want_type) : bool :=
+  cid_eqb (fst a) (fst b) && (want_code (snd a) =? want_code (snd b)).
+Definition spres_eqb (a b : spres) : bool :=
+  cid_eqb (sp_cid a) (sp_cid b) && (presence_code (sp_type a) =? presence_code (sp_type b)).
+Definition sblock_eqb (a b : sblock) : bool :=
+  (sb_id a =? sb_id b) && cid_eqb (sb_cid a) (sb_cid b) && (sb_dlen a =? sb_dlen b).
+
+(* a written message as the harness decodes it again: kind, encoded length, entries (runs) *)
 Definition enc_omsg (m : omsg) : list N :=
   match m with
   | ORequest ws =>
       1 :: omsg_len m ::
-      enc_list (fun cw => enc_bytes (cid_to_bytes (fst cw)) ++ [1; 0; want_code (snd cw); 0]) ws ++ [0]
+      enc_runs want_eqb (fun cw => enc_bytes (cid_to_bytes (fst cw)) ++ [1; 0; want_code (snd cw); 0]) ws ++ [0]
   | OPresences l =>
       2 :: omsg_len m ::
-      enc_list (fun x => enc_bytes (cid_to_bytes (sp_cid x)) ++ [presence_code (sp_type x)]) l
+      enc_runs spres_eqb (fun x => enc_bytes (cid_to_bytes (sp_cid x)) ++ [presence_code (sp_type x)]) l
   | OBlocks l =>
       3 :: omsg_len m ::
-      enc_list (fun x => [sb_id x] ++ enc_bytes (sb_prefix x) ++ [sb_dlen x; 1]) l
+      enc_runs sblock_eqb (fun x => [sb_id x] ++ enc_bytes (sb_prefix x) ++ [sb_dlen x; 1]) l
   end.
 
 (* a case operation is an event of one peer of the model's node *)
@@ -469,20 +536,24 @@ Definition p_event : parser (N * event payload) :=
   | _ => pfail
   end.
 
+(* entries come as runs: (count, entry) *)
 Inductive wmsg :=
-| WRequest (len : N) (es : list wl_entry) (full : N)
-| WPresences (len : N) (ps : list (list N * N))
-| WBlocks (len : N) (bs : list (N * list N * N * N)).
+| WRequest (len : N) (es : list (N * wl_entry)) (full : N)
+| WPresences (len : N) (ps : list (N * (list N * N)))
+| WBlocks (len : N) (bs : list (N * (N * list N * N * N))).
+
+Definition p_run {X} (p : parser X) : parser (N * X) :=
+  let* k := pN in let* x := p in if 1 <=? k then pret (k, x) else pfail.
 
 Definition p_wmsg : parser wmsg :=
   let* tag := pN in
   match tag with
-  | 1 => let* len := pN in let* es := plist p_wl_entry in let* full := pN in pret (WRequest len es full)
-  | 2 => let* len := pN in let* ps := plist (let* b := plist pN in let* t := pN in pret (b, t)) in
+  | 1 => let* len := pN in let* es := plist (p_run p_wl_entry) in let* full := pN in pret (WRequest len es full)
+  | 2 => let* len := pN in let* ps := plist (p_run (let* b := plist pN in let* t := pN in pret (b, t))) in
          pret (WPresences len ps)
   | 3 => let* len := pN in
-         let* bs := plist (let* i := pN in let* pb := plist pN in let* dl := pN in let* ok := pN in
-                           pret (i, pb, dl, ok)) in
+         let* bs := plist (p_run (let* i := pN in let* pb := plist pN in let* dl := pN in let* ok := pN in
+                                  pret (i, pb, dl, ok))) in
          pret (WBlocks len bs)
   | _ => pfail
   end.
@@ -531,17 +602,21 @@ Definition wmsg_ok (w : wmsg) : bool :=
   match w with
   | WRequest len es full =>
       (1 <=? len) && (len <=? MM) && (full =? 0) &&
-      forallb (fun e => match cid_read_bytes (we_block e) with Some _ => true | None => false end &&
-                        (we_priority e =? 1) && negb (we_cancel e) && (we_wanttype e <=? 1) &&
-                        negb (we_senddonthave e)) es
+      forallb (fun ke : N * wl_entry =>
+                 let e := snd ke in
+                 match cid_read_bytes (we_block e) with Some _ => true | None => false end &&
+                 (we_priority e =? 1) && negb (we_cancel e) && (we_wanttype e <=? 1) &&
+                 negb (we_senddonthave e)) es
   | WPresences len ps =>
       (1 <=? len) && (len <=? MM) && negb (match ps with [] => true | _ => false end) &&
-      forallb (fun bt : list N * N =>
+      forallb (fun kbt : N * (list N * N) =>
+                 let bt := snd kbt in
                  match cid_read_bytes (fst bt) with Some _ => true | None => false end && (snd bt <=? 1)) ps
   | WBlocks len bs =>
       (1 <=? len) && (len <=? MM) && negb (match bs with [] => true | _ => false end) &&
-      (sum (map (fun b : N * list N * N * N => snd (fst b)) bs) <=? MB) &&
-      forallb (fun b : N * list N * N * N =>
+      (sum (map (fun kb : N * (N * list N * N * N) => fst kb * snd (fst (snd kb))) bs) <=? MB) &&
+      forallb (fun kb : N * (N * list N * N * N) =>
+                 let b := snd kb in
                  match prefix_from_bytes (snd (fst (fst b))) with Some _ => true | None => false end &&
                  (snd b =? 1)) bs
   end.
